@@ -371,9 +371,19 @@ static std::vector<std::string> integer_boundary_strings()
       } while (x != 0);
       v.push_back(sx);
       v.push_back("-" + sx);
-      v.push_back("00" + sx);
+      for (std::size_t pad : {std::size_t(1), std::size_t(2), std::size_t(8), std::size_t(20), std::size_t(40)})
+      {
+        v.push_back(std::string(pad, '0') + sx); // leading zeros never change the value, however long the token gets
+        if (bits == 31 && d == 0)
+          v.push_back("-" + std::string(pad, '0') + sx);
+      }
       v.push_back(sx + "0");
     }
+  for (std::size_t pad : {std::size_t(9), std::size_t(10), std::size_t(11), std::size_t(19), std::size_t(20), std::size_t(21), std::size_t(64)})
+  {
+    v.push_back(std::string(pad, '0') + "42");
+    v.push_back(std::string(pad, '0'));
+  }
   for (char const *s : {"0", "-0", "1", "-1", "007", "-007", "99999999999999999999999999999999999999", "-", "--1", "+1", "1-"})
     v.push_back(s);
   return v;
